@@ -2,6 +2,7 @@ package interp
 
 import (
 	"go/token"
+	"go/types"
 	"strings"
 
 	"golang.org/x/tools/go/ssa"
@@ -95,6 +96,11 @@ func (in *Interp) syncPoint(g *G) (isSync bool, ready bool) {
 	case *ssa.Send:
 		ch := in.get(fr, ins.Chan).R.(*ChanV)
 		return true, ch.closed || len(ch.buf) < ch.cap
+	case *ssa.Select:
+		if !ins.Blocking {
+			return true, true
+		}
+		return true, len(in.selectReady(fr, ins)) > 0
 	case *ssa.UnOp:
 		if ins.Op == token.ARROW {
 			ch := in.get(fr, ins.X).R.(*ChanV)
@@ -165,4 +171,69 @@ func (in *Interp) reportDeadlock() {
 		}
 	}
 	in.addViolation("DEADLOCK", "all goroutines blocked", m, false, strings.Join(where, ","))
+}
+
+func (in *Interp) selectReady(fr *Frame, ins *ssa.Select) []int {
+	var ready []int
+	for i, st := range ins.States {
+		cv := in.get(fr, st.Chan)
+		if cv.R == nil {
+			continue
+		}
+		ch := cv.R.(*ChanV)
+		if st.Dir == types.SendOnly {
+			if ch.closed || len(ch.buf) < ch.cap {
+				ready = append(ready, i)
+			}
+		} else if ch.closed || len(ch.buf) > 0 {
+			ready = append(ready, i)
+		}
+	}
+	return ready
+}
+
+func (in *Interp) selectOp(g *G, fr *Frame, ins *ssa.Select) {
+	ready := in.selectReady(fr, ins)
+	tt := ins.Type().(*types.Tuple)
+	res := make([]Value, tt.Len())
+	for i := range res {
+		res[i] = zero(tt.At(i).Type())
+	}
+	if len(ready) == 0 {
+		if ins.Blocking {
+			fr.pc--
+			g.block = "select"
+			return
+		}
+		res[0] = mkInt(^uint64(0), 64)
+		in.set(fr, ins, Value{K: KTuple, R: res})
+		return
+	}
+	k := ready[in.Pick(len(ready), "select")]
+	st := ins.States[k]
+	ch := in.get(fr, st.Chan).R.(*ChanV)
+	res[0] = mkInt(uint64(k), 64)
+	if st.Dir == types.SendOnly {
+		if ch.closed {
+			in.goPanic(g, "send on closed channel")
+			return
+		}
+		ch.buf = append(ch.buf, copyVal(in.get(fr, st.Send)))
+	} else {
+		// position of this receive among the receive states
+		ri := 2
+		for j := 0; j < k; j++ {
+			if ins.States[j].Dir != types.SendOnly {
+				ri++
+			}
+		}
+		if len(ch.buf) > 0 {
+			res[ri] = ch.buf[0]
+			ch.buf = ch.buf[1:]
+			res[1] = mkBool(true)
+		} else {
+			res[1] = mkBool(false)
+		}
+	}
+	in.set(fr, ins, Value{K: KTuple, R: res})
 }
